@@ -456,8 +456,43 @@ func implC07Global(toks []string) string {
 	return strings.Join(out, ";")
 }
 
+var c07ObjFns = []string{"getPrototypeOf", "getOwnPropertyDescriptor", "getOwnPropertyNames", "create", "defineProperty", "defineProperties",
+	"seal", "freeze", "preventExtensions", "isSealed", "isFrozen", "isExtensible", "keys"}
+var c07PrimArgs = map[string]string{"number": "1", "string": "'s'", "boolean": "true", "undefined": "undefined", "null": "null", "missing": ""}
+
+// implC07Prim calls one Object.* function with a non-object first argument.
+func implC07Prim(fn, arg string) string {
+	a, ok := c07PrimArgs[arg]
+	if !ok {
+		return "bad-op"
+	}
+	call := "Object." + fn + "(" + a
+	if a != "" {
+		switch fn {
+		case "getOwnPropertyDescriptor":
+			call += ",'x'"
+		case "defineProperty":
+			call += ",'x',{value:1}"
+		case "defineProperties":
+			call += ",{}"
+		}
+	}
+	call += ")"
+	src := "(function(){ try{ var r=" + call + "; return (r instanceof Array)?'arr'+r.length:(typeof r==='object'&&r!==null?'obj':'val:'+String(r)); }catch(e){ return (e instanceof TypeError)?'T':'E:'+e.name; } })()"
+	w := c07Pool.Get().(*c07VM)
+	v, err := w.vm.Run(src)
+	if err != nil {
+		return "abort:" + c07san(err.Error())
+	}
+	c07Pool.Put(w)
+	return v.String()
+}
+
 func implC07(line string) string {
 	f := strings.Fields(line)
+	if len(f) == 3 && f[0] == "p" {
+		return implC07Prim(f[1], f[2])
+	}
 	if len(f) == 0 || (f[0] != "h" && f[0] != "a" && f[0] != "g") {
 		return "bad-op"
 	}
@@ -808,6 +843,12 @@ func genC07(c *h.Ctx) {
 			}
 		}
 		c.Add("g "+strings.Join(toks, " "), "global:history")
+	}
+	// (2e) the Object.* family with a non-object first argument (exhaustive: 13 functions x 6 arguments)
+	for _, fn := range c07ObjFns {
+		for _, a := range []string{"number", "string", "boolean", "undefined", "null", "missing"} {
+			c.Add("p "+fn+" "+a, "primitive-argument")
+		}
 	}
 	// (3) random histories
 	for i := 0; i < c.N(6000, 250000); i++ {
